@@ -943,6 +943,9 @@ func main() {
 	defer raceCleanup()
 	installRule()
 	pluginconfig.AddHooks() // once, before any case runs: the engine path decodes a whole engine.Config
+	// the config package compiles its decode hooks lazily at the first Decode (not synchronised: a real run decodes its
+	// config file before anything runs concurrently); do that before the first concurrent case
+	_ = config.Decode(map[string]interface{}{}, &struct{}{})
 	drv.Main(&drv.Prop{ID: "C18", Gen: c18Gen, Run: c18Run, Class: c18Class, Workers: 8,
 		Rule: "every constructor shape (component|factory x config none|struct|*struct x ctor error x factory error x impl|interface product x default-config absent|fresh|nil|shared) x requested form (New, factory without/with error) x fillConf given or not, each run with a fault-free and a random fault plan and a random number k<=20 of calls (thorough: some k up to 120, plus EVERY fault plan over invocation indices 0..2 for k=2 and, for pointer configs, 0..3 for k=3; registrations Register must refuse: one case per shape and round); per valid shape x form one run through pluginconfig.Hook/FactoryHook with the real config decoder as fillConf and one with settings the decoder refuses; per valid shape one pool of the real engine (constructor registered with core/register.Gun, engine.Config decoded with the plugin hooks, 0..6 instances, shared or per-instance rps schedule, faults at warm-up / first instance); per valid shape two histories (direct and through the hooks): 2..4 creations on ONE registration, each of a random form with its own user settings and 0..4 calls, one fault plan over the running invocation indices; Register driven over constructor and default-config TYPES (supported forms and their neighbours: arity, result kinds, config kinds, implements, default-config function type, plugin type, name, duplicate); SESSIONS (1500 quick / 60000 thorough): ONE registry with 1..5 registrations over 3 plugin interfaces (two of them with the same type NAME in different packages) x 4 names (same name under several types, names that differ by letter case only, now and then an empty name, a duplicate, a default-config function that does not fit, a late Register), each registration with its own instrumented user code and fault plan, then 4..15 operations: New / NewFactory by (type, name) of which about a third was never registered, calls of ANY factory handed out so far in any interleaving with later creations (also one past the end), Lookup; per valid shape one creation for another name / another plugin type than the registered one, directly or through the hooks (nm=, pt=); per valid shape two runs of pluginconfig.Hook / FactoryHook on well- and ill-formed plugin config data (via=hookconf: the `type` key in any letter case and near-miss spellings, none / several / non-string / empty / unknown names, the three kinds of data a decoder hands over incl. non-string keys, a type without plugins); round 3: on every hook / engine / hookconf case a VALIDATION RULE of the config type (config.RegisterCustom: Conf.C >= vmin, vmin one of 0 0 0 1 1 30 60 95) with the real config.DecodeAndValidate as fillConf, every fourth case with settings that consist of the `type` key only (so the default / zero configuration decides), histories through the hooks with valid and invalid creations mixed; per valid shape with a config one NESTED creation (via=nest: the outer configuration contains a plugin field, the decoder creates the nested component of a second registration through the hooks while it fills the outer config; own shapes, settings, fault plans and the rule on both sides); 150 (thorough 4000) CONCURRENT cases (conc=1: 2..6 plain creations side by side on one registry, one goroutine each; the driver built with -race runs exactly these and reports a case during which the race runtime logged a data race); non-trivial = at least one call, a refused registration, a type case, a session, a lookup failure"})
 }
@@ -1067,7 +1070,7 @@ func c18Gen(r *rand.Rand, tier string) []string {
 		}
 		var conc []string
 		for _, c := range c18GenRounds(r, tier, rounds) {
-			if strings.HasPrefix(c, "conc=1") {
+			if strings.HasPrefix(c, "conc=1") || strings.HasPrefix(c, "via=par") {
 				conc = append(conc, c)
 			}
 		}
@@ -1134,12 +1137,25 @@ func c18GenRounds(r *rand.Rand, tier string, rounds int) []string {
 										if r.Intn(4) == 0 {
 											u = []string{"_", "_", "_"} // the settings are the `type` key only
 										}
+										// round 4: structured options (map / list / array / pointer to a nested struct) with registered
+										// defaults and partial settings, scalar options given as an explicit null
+										ext := cfg != 'n' && r.Intn(3) == 0
+										if ext {
+											for i := range u {
+												if r.Intn(4) == 0 {
+													u[i] = "~"
+												}
+											}
+										}
 										s := fmt.Sprintf("via=hook sh=%c%c%c%c%c%c form=%s fill=1 d=%s/%s/%s u=%s k=%d vmin=%d ff=",
 											fa, cfg, ce, fe, ifc, df, form, val(), val(), val(), strings.Join(u, "/"), k, vminGen(r))
 										if r.Intn(2) == 0 {
 											s += fmt.Sprintf(" cf=%s rf=%s", subset(r, k+2), subset(r, k+2))
 										} else {
 											s += " cf= rf="
+										}
+										if ext {
+											s += " " + extGenDefaults(r) + " " + uxText(extGenUser(r))
 										}
 										out = append(out, s)
 									}
@@ -1238,16 +1254,30 @@ func c18GenRounds(r *rand.Rand, tier string, rounds int) []string {
 		}
 	}
 	// the same creations side by side on ONE registry, concurrently
-	var plain []string
+	var plain, hooked, parShapes []string
+	seenShape := map[string]bool{}
 	for _, c := range out {
 		if strings.HasPrefix(c, "sh=") && !strings.Contains(c, " nm=") && len(plain) < 4000 {
 			plain = append(plain, c)
 		}
+		// through the hooks: no shared default pointer (several decoders would write one object: the plugin author's sharing)
+		if strings.HasPrefix(c, "via=hook sh=") && !strings.Contains(c, " nm=") && !strings.Contains(c, " bad=1") && c[17] != 's' &&
+			len(hooked) < 4000 {
+			hooked = append(hooked, c)
+			if sh := c[12:18]; !seenShape[sh] {
+				seenShape[sh] = true
+				parShapes = append(parShapes, sh)
+			}
+		}
 	}
 	if tier == "thorough" {
 		out = append(out, concGen(r, plain, 4000)...)
+		out = append(out, concHookGen(r, hooked, 3000)...)
+		out = append(out, parGen(r, parShapes, 3000)...)
 	} else {
 		out = append(out, concGen(r, plain, 150)...)
+		out = append(out, concHookGen(r, hooked, 150)...)
+		out = append(out, parGen(r, parShapes, 200)...)
 	}
 	out = append(out, regCases(r, tier)...)
 	if tier == "thorough" {
